@@ -80,12 +80,14 @@ def check_wrapper():
 
         async def recover(self, job, step, exc):
             self.n += 1
+            if self.fail == "same":
+                raise exc
             if self.fail:
                 raise self.fail
 
     for exc, handled in [(None, False), (asyncio.CancelledError(), False), (KeyboardInterrupt(), False), (UnrecoverableWorkflowException("u"), False),
                          (WorkflowExecutionException("w"), True), (FailureHandlingException("f"), False), (ValueError("v"), True)]:
-        for rec_fail in [None, FailureHandlingException("rf"), WorkflowExecutionException("rw")]:
+        for rec_fail in [None, FailureHandlingException("rf"), WorkflowExecutionException("rw"), "same"]:
             fm = FM(rec_fail)
             class _S(Step):
                 async def run(self): ...
@@ -110,7 +112,7 @@ def check_wrapper():
             except BaseException as r:
                 out = r
             exp_n = 1 if handled else 0
-            exp_out = exc if not handled else rec_fail
+            exp_out = exc if (not handled or rec_fail == "same") else rec_fail
             if fm.n != exp_n or out is not exp_out:
                 return {"func_raises": repr(exc), "recover_raises": repr(rec_fail), "recover_calls": fm.n, "propagated": repr(out)}
     return None
